@@ -26,6 +26,7 @@ var c13Inputs = []struct{ id, src string }{
 	{"two-blank-same-name", "//go:build convergen\n\npackage p\n\nimport (\n\t_ \"example.com/m/ext/other\"\n\t_ \"example.com/m/ext/v2\"\n)\n\ntype S struct{ A int }\n\ntype D struct{ A int }\n\ntype Convergen interface {\n\t// :conv ext.Conv A\n\tConv(*S) *D\n}\n"},
 	{"blank-shadowing-named", "//go:build convergen\n\npackage p\n\nimport (\n\t\"example.com/m/ext\"\n\t_ \"example.com/m/ext/v2\"\n)\n\nvar _ ext.EInt\n\ntype S struct{ A int }\n\ntype D struct{ A string }\n\ntype Convergen interface {\n\t// :conv ext.Itoa A\n\tConv(*S) *D\n}\n"},
 	{"alias-equals-other-base-name", "//go:build convergen\n\npackage p\n\nimport (\n\te \"example.com/m/ext\"\n\text \"example.com/m/ext/v2\"\n)\n\nvar _ e.EInt\n\ntype S struct{ A int }\n\ntype D struct{ A int }\n\ntype Convergen interface {\n\t// :conv ext.Conv A\n\tConv(*S) *D\n}\n"},
+	{"four-generated-converters", "//go:build convergen\n\npackage p\n\ntype A1 struct{ V int }\ntype A2 struct{ V int }\ntype B1 struct{ V int }\ntype B2 struct{ V int }\ntype C1 struct{ V int }\ntype C2 struct{ V int }\ntype E1 struct{ V int }\ntype E2 struct{ V int }\n\ntype S struct {\n\tA *A1\n\tB *B1\n\tC *C1\n\tE *E1\n}\n\ntype D struct {\n\tA *A2\n\tB *B2\n\tC *C2\n\tE *E2\n}\n\ntype Convergen interface {\n\t// :conv ConvA A\n\t// :conv ConvB B\n\t// :conv ConvC C\n\t// :conv ConvE E\n\tTop(*S) *D\n\tConvA(*A1) *A2\n\tConvB(*B1) *B2\n\tConvC(*C1) *C2\n\tConvE(*E1) *E2\n}\n"},
 	{"imported-hook", "//go:build convergen\n\npackage p\n\nimport (\n\te \"example.com/m/ext\"\n\t_ \"example.com/m/ext/other\"\n)\n\ntype Convergen interface {\n\t// :postprocess e.HookSDErr\n\tConv(*e.S) (*e.D, error)\n}\n"},
 	{"two-interfaces", cliInputs[2].src},
 	{"three-interfaces", "//go:build convergen\n\npackage p\n\nimport \"example.com/m/ext\"\n\ntype S struct {\n\tA int\n\tL []int\n}\n\ntype D struct {\n\tA ext.EInt\n\tL []ext.EInt\n}\n\n// :typecast\ntype Convergen interface {\n\tZeta(*S) *D\n\tAlpha(*S) *D\n}\n\n// :convergen\ntype B interface {\n\tMid(*S) *D\n}\n\nvar Between = 1\n\n// :convergen\n// :typecast\ntype A interface {\n\t// :recv s\n\tLast(*S) *D\n}\n"},
@@ -47,6 +48,7 @@ var c13Markers = []string{
 
 // c13Env is one point of the environment product.
 type c13Env struct {
+	Prior    int // what the output path holds before the run: 0 nothing, 1 a longer stale file
 	Marker   int
 	MapOrder string
 	Place    int // (cwd, spelling)
@@ -82,6 +84,9 @@ func (e *Env) c13Run(base, tag string, in int, env c13Env, countFile string) c13
 		"p/setup.go": c13Inputs[in].src, "p/other.go": "package p\n\nvar Other = 1\n", "outdir/keep.go": "package outdir\n",
 		"p/sub/deep/keep.go": "package deep\n", "home1/.keep": "", "home2/.keep": "", "tmp1/.keep": "", "tmp2/.keep": "",
 	})
+	if env.Prior == 1 {
+		_ = os.WriteFile(filepath.Join(root, "p", "setup.gen.go"), []byte("package p\n\n// stale\n"+strings.Repeat("// a long stale tail that must not survive\n", 200)), 0o644)
+	}
 	pl := c13Places[env.Place]
 	abs := filepath.Join(root, "p", "setup.go")
 	spelled := pl.path
@@ -176,7 +181,7 @@ func init() {
 		}
 		e.Rep.Rule("8 inputs chosen for import-table and marker exposure (blank+alias imports with clashing package names, :conv pkg.F, imported hook, 2 and 3 converter interfaces, a rejected input, no-match warnings) x " +
 			"environment: marker shape (9, via the nanoid seam) x map-iteration order (every permutation of every executed range-over-map loop for <= 4 keys, one deviation at a time; two deviations in thorough; via the verifseam rewrite) complete, " +
-			"and cwd/path spelling (10 places) x GOFILE vs argument x HOME x TMPDIR within 2 deviations of the base environment; oracle O-diff: exit status, output bytes, stdout and stderr (scratch path spellings tokenised) identical to the base environment; " +
+			"and cwd/path spelling (10 places) x GOFILE vs argument x HOME x TMPDIR x prior content of the output path {none, longer stale file} within 2 deviations of the base environment; oracle O-diff: exit status, output bytes, stdout and stderr (scratch path spellings tokenised) identical to the base environment; " +
 			"non-trivial = environment differing from base in marker or map order on an input with >= 2 imports or >= 2 interfaces")
 		type job struct {
 			in  int
@@ -217,10 +222,10 @@ func init() {
 			// native (unowned) map order with a pinned marker: the seams must not be what makes it deterministic
 			jobs = append(jobs, job{in, c13Env{Marker: 1, MapOrder: ""}})
 			// environment: <= 2 deviations over (place, gofile, home, tmp, marker{base, other}, map order{asc, desc})
-			rad := []int{len(c13Places), 2, 2, 2, 2, 2}
+			rad := []int{len(c13Places), 2, 2, 2, 2, 2, 2}
 			dev := 2
 			deviate := func(d []int) {
-				env := c13Env{Place: d[0], GoFile: d[1], Home: d[2], Tmp: d[3], Marker: 1 + d[4]*4, MapOrder: []string{"asc", "desc"}[d[5]]}
+				env := c13Env{Place: d[0], GoFile: d[1], Home: d[2], Tmp: d[3], Marker: 1 + d[4]*4, MapOrder: []string{"asc", "desc"}[d[5]], Prior: d[6]}
 				jobs = append(jobs, job{in, env})
 			}
 			var rec func(i, left int, d []int)
@@ -274,6 +279,9 @@ func init() {
 				if j.env.Tmp != 0 {
 					devs = append(devs, "tmp")
 				}
+				if j.env.Prior != 0 {
+					devs = append(devs, "prior-output")
+				}
 				feat := "input=" + c13Inputs[j.in].id + "|dev=" + strings.Join(devs, ",")
 				add := func(key, what string) {
 					fs = append(fs, report.Finding{Key: "C13|" + key + "|" + feat, CellID: fmt.Sprintf("%s_%+v", c13Inputs[j.in].id, j.env), What: what,
@@ -288,7 +296,8 @@ func init() {
 				if got.Exit != want.Exit {
 					add("exit", fmt.Sprintf("exit status %d vs %d in the base environment", got.Exit, want.Exit))
 				}
-				if got.Out != want.Out {
+				if got.Out != want.Out && !(j.env.Prior == 1 && want.Exit != 0) {
+					// (a rejected run leaves a pre-existing file as it was: nothing to compare with the base, where there was none)
 					add("bytes", "output bytes differ from the base environment")
 				}
 				if got.Stdout != want.Stdout {
